@@ -52,6 +52,15 @@ func Split(src *choice.Src, c *Cfg, n int) []*Cfg {
 	}
 	for _, s := range c.Services {
 		a := src.Draw("split.svc", n)
+		if s.Todo && (s.Ctor != "" || s.Value != "" || s.Type != "") && a < n-1 && src.Chance("split.todo", 2, 3) {
+			// the definition in one file, `todo: true` in a later one
+			b := a + 1 + src.Draw("split.svc2", n-1-a)
+			s1 := s
+			s1.Todo = false
+			parts[a].Services = append(parts[a].Services, s1)
+			parts[b].Services = append(parts[b].Services, Svc{Name: s.Name, Todo: true})
+			continue
+		}
 		if !s.Todo && a < n-1 && src.Chance("split.attr", 1, 3) {
 			b := a + 1 + src.Draw("split.svc2", n-1-a)
 			s1, s2 := s, Svc{Name: s.Name}
